@@ -69,15 +69,19 @@ def ensure_build(verbose=False):
             open(stamp, "w").write(str(time.time()))
             if verbose:
                 print("[build] %s built in %.1fs" % (th, time.time() - t0), file=sys.stderr)
-        # drop stale builds (keep the two most recent besides the current one)
+        os.utime(stamp, None)          # mark the build as in use now
+        # drop stale builds: never one used in the last three hours (another check may be running on it), and keep the six most recent
         others = []
         for name in os.listdir(CACHE):
             p = os.path.join(CACHE, name)
             if name != th and os.path.isdir(p):
-                others.append((os.path.getmtime(p), p))
+                st = os.path.join(p, ".built")
+                others.append((os.path.getmtime(st) if os.path.exists(st) else os.path.getmtime(p), p))
         others.sort(reverse=True)
-        for _, p in others[2:]:
-            shutil.rmtree(p, ignore_errors=True)
+        now = time.time()
+        for mt, p in others[6:]:
+            if now - mt > 3 * 3600:
+                shutil.rmtree(p, ignore_errors=True)
     finally:
         fcntl.flock(lock, fcntl.LOCK_UN)
         lock.close()
